@@ -262,7 +262,7 @@ OPEN_GOALS: list = []
 LEVEL_TEXT = ("Machine-checked for all binary inputs and cost vectors in the region (the proofs need only spe + sloss <= dup + 2*floss, 0 <= floss, 0 <= sloss): the cost returned by SuperDTL is the minimum "
               "over all valid species mappings and ALL family-set labellings in which each family is gained once at the LCA of its carriers; every returned solution is valid and attains it; "
               "the base solver attains the minimum on the LCA mapping; ALL = exactly the optimal canonical solutions, ANY exactly one. "
-              "The model is compared with the code on gain/LCA sets, every table value, ALL sets and ANY members; a brute-force sample over every labelling runs on every check.")
+              "The model is compared with the code on gain/LCA sets, every table value, ALL sets and ANY members; a brute-force sample over every labelling runs on every check. The solver source is also translated into Gallina on every run (Gen/UspfsGen.v) and proved equal to the model; composed with the optimality theorems: under the premises listed in DESIGN section 8 the GENERATED usreconcile_extended_uspfs / usreconcile_base_uspfs under ALL return a non-empty duplicate-free list that is exactly the set of minimum-cost valid solutions over all labellings (C03_c03_gen_extended_optimum, _base_), and under ANY one of them (C03_gen_usreconcile_*_uspfs_any).")
 LEVEL_NOTE = ("Trusted: Coq kernel; the translator (pyfun.py + uspfs_gen.py) that regenerates Gen/UspfsGen.v from the source; hand-written model (proved equal to the generated functions, and correspondence = differential testing). No axioms. Theorems are about the code after fix D6. "
               "Known finding F-COHERENCE outside the region (witness replayed).")
 
